@@ -181,6 +181,15 @@ def report(property_id: str, violations: List[Dict[str, Any]], max_lines: int = 
     new = 0
     matched = 0
     printed = 0
+    if WORKER_FAILURES:
+        # an exception escaped from the exploration itself (never on the unchanged tree): the property could not be judged on that part
+        # of the space, which is reported as a violation with the traceback as the replay artefact
+        last = [t.strip().splitlines()[-1] if t.strip() else "?" for t in WORKER_FAILURES]
+        path = write_replay(property_id, {"property": property_id, "signature": "exploration aborted by an unexpected exception", "tracebacks": WORKER_FAILURES[:5]})
+        print(f"VIOLATION property={property_id} replay={path}")
+        print(f"  signature: exploration aborted by an unexpected exception ({len(WORKER_FAILURES)} worker task(s))")
+        print(f"  what: {last[0][:300]}")
+        new += len(WORKER_FAILURES)
     for sig, v in by_sig.items():
         k = next((k for k in known if k.get("signature") == sig), None)
         if k is not None:
@@ -213,13 +222,25 @@ def _rotate(seq: Sequence[Any], k: int) -> List[Any]:
 
 
 _WORKER_FN: Optional[Callable[[Any], Any]] = None
+WORKER_FAILURES: List[str] = []  # tracebacks of workers that died on an exception (reported as violations by report())
+
+
+class _WorkerFailure:
+    def __init__(self, text: str) -> None:
+        self.text = text
 
 
 def _call(indexed: Tuple[int, Any]) -> Tuple[int, Any, float]:
     i, task = indexed
     t0 = time.time()
     assert _WORKER_FN is not None
-    res = _WORKER_FN(task)
+    try:
+        res = _WORKER_FN(task)
+    except Exception:  # pylint: disable=broad-except
+        import traceback
+
+        # exceptions of the code under test may carry unpicklable objects: ship the text
+        res = _WorkerFailure(traceback.format_exc()[-3000:])
     return i, res, time.time() - t0
 
 
@@ -248,7 +269,11 @@ def pmap(
         for i in order:
             if deadline is not None and time.time() > deadline:
                 break
-            results[i] = fn(tasks[i])
+            _i, res, _dt = _call((i, tasks[i]))
+            if isinstance(res, _WorkerFailure):
+                WORKER_FAILURES.append(res.text)
+                continue
+            results[i] = res
             done += 1
         return results, done
     ctx = mp.get_context("fork")
@@ -264,6 +289,9 @@ def pmap(
                 except mp.TimeoutError:
                     pool.terminate()
                     break
+                if isinstance(res, _WorkerFailure):
+                    WORKER_FAILURES.append(res.text)
+                    continue
                 results[i] = res
                 done += 1
         except StopIteration:
